@@ -90,6 +90,17 @@ type State struct {
 	pathID   int
 	dead     bool
 	ghostSeq int
+	expectChans []Term
+	qfacts   []qfact
+	info     map[string]Val // Go-side knowledge (closure identity, dynamic type, ...) of values stored in cells
+}
+
+// qfact: a universally quantified assumption kept for explicit instantiation at
+// slice index operations (triggers with arithmetic do not e-match reliably).
+type qfact struct {
+	ante Term
+	bv   string
+	impl Term
 }
 
 type Unit struct {
@@ -152,10 +163,16 @@ func (st *State) pathText() string {
 }
 
 func (st *State) clone() *State {
-	ns := &State{alloc: st.alloc, pc: st.pc, discover: st.discover, pathID: st.pathID, ghostSeq: st.ghostSeq}
+	ns := &State{alloc: st.alloc, pc: st.pc, discover: st.discover, pathID: st.pathID, ghostSeq: st.ghostSeq, expectChans: st.expectChans, qfacts: st.qfacts}
 	ns.heap = make(map[string]Term, len(st.heap))
 	for k, v := range st.heap {
 		ns.heap[k] = v
+	}
+	if len(st.info) > 0 {
+		ns.info = make(map[string]Val, len(st.info))
+		for k, v := range st.info {
+			ns.info[k] = v
+		}
 	}
 	ns.frames = make([]*Frame, len(st.frames))
 	for i, f := range st.frames {
@@ -223,6 +240,19 @@ func (u *Unit) recordObl(st *State, kind, label string, goal Term, pos token.Pos
 	}
 	if props == nil {
 		props = u.contract.Props
+		switch kind {
+		case "nil", "index", "slice", "assert-type", "div0", "panic-unreachable", "makeslice":
+			// safety obligations belong to the no-crash properties when the function serves one
+			var sp []string
+			for _, p := range props {
+				if p == "C13" || p == "C12" {
+					sp = append(sp, p)
+				}
+			}
+			if len(sp) > 0 {
+				props = sp
+			}
+		}
 	}
 	o := &Obligation{Name: name, Kind: kind, Func: u.name, Props: props, Pos: u.eng.posStr(pos), Where: where, Goal: human, PathID: st.pathID}
 	if trivial {
@@ -406,7 +436,7 @@ func (u *Unit) assumeTyping(st *State, v Val) {
 			}
 			switch ut := l.T.Underlying().(type) {
 			case *types.Pointer, *types.Map, *types.Chan:
-				st.assume(fmt.Sprintf("(and (<= 0 %s) (<= %s %s))", t, t, st.alloc))
+				st.assume(fmt.Sprintf("(and (<= 0 %s) (<= %s %s) (=> (not (= %s 0)) (= (reftype %s) %d)))", t, t, st.alloc, t, t, u.refTag(l.T)))
 			case *types.Signature:
 				st.assume(fmt.Sprintf("(<= 0 %s)", t))
 			case *types.Basic:
@@ -566,7 +596,14 @@ func (u *Unit) load(st *State, pv Val, pos token.Pos) Val {
 				}
 			}
 		}
-		return Val{T: target, Terms: append([]Term(nil), cells[lo:hi]...)}
+		lv := Val{T: target, Terms: append([]Term(nil), cells[lo:hi]...)}
+		if len(p.Path) == 0 {
+			if iv, ok := st.info[fmt.Sprintf("L%p", p.Alloc)]; ok && sameTerms(iv.Terms, lv.Terms) {
+				iv.T = target
+				return iv
+			}
+		}
+		return lv
 	default:
 		locs, _ := u.locsOf(p)
 		ts := make([]Term, len(locs))
@@ -574,9 +611,54 @@ func (u *Unit) load(st *State, pv Val, pos token.Pos) Val {
 			ts[i] = u.define(st, "ld", l.sort, u.readLoc(st, l))
 		}
 		v := Val{T: target, Terms: ts}
+		if len(locs) > 0 {
+			if iv, ok := st.info["H"+p.Ref+"|"+p.Idx+"|"+locs[0].comp+"|"+st.heap[locs[0].comp]]; ok && len(iv.Terms) == len(ts) {
+				iv.T = target
+				iv.Terms = ts
+				v = iv
+			}
+		}
+		if len(p.Path) == 0 && p.Kind == PObj {
+			for g, n := range u.eng.globalRef {
+				if sInt(int64(-n)) == p.Ref {
+					v.Global = g
+					for _, gi := range u.eng.cs.GlobalInvs {
+						if gi.Type == g.Pkg.Pkg.Name()+"."+g.Name() {
+							if t, err := u.evalBool(st, &SpecEnv{vars: map[string]Val{"val": v}, pkg: g.Pkg.Pkg}, gi.Expr); err == nil {
+								st.assume(t)
+								u.trusted["globalinv "+gi.Type] = true
+							}
+						}
+					}
+				}
+			}
+		}
 		u.assumeTyping(st, v)
+		if fi := u.fieldInvFor(p); fi != nil {
+			if t, err := u.evalBool(st, &SpecEnv{vars: map[string]Val{"val": v}, pkg: u.pkgOf(u.fn)}, fi.Expr); err == nil {
+				st.assume(t)
+			}
+		}
 		return v
 	}
+}
+
+func (u *Unit) fieldInvFor(p *Ptr) *FieldInv {
+	if len(u.eng.cs.FieldInvs) == 0 || p.Kind != PObj || len(p.Path) != 1 {
+		return nil
+	}
+	stt, ok := p.Root.Underlying().(*types.Struct)
+	if !ok {
+		return nil
+	}
+	k := shortTypeKey(p.Root)
+	fname := stt.Field(p.Path[0]).Name()
+	for _, fi := range u.eng.cs.FieldInvs {
+		if fi.Type == k && fi.Field == fname {
+			return fi
+		}
+	}
+	return nil
 }
 
 func (u *Unit) store(st *State, pv Val, v Val, pos token.Pos) {
@@ -606,6 +688,12 @@ func (u *Unit) store(st *State, pv Val, v Val, pos token.Pos) {
 		}
 		copy(cells[lo:hi], v.Terms)
 		fr.locals[p.Alloc] = cells
+		if len(p.Path) == 0 && (v.Fn != nil || v.Dyn != nil || v.Ptr != nil || v.Global != nil) {
+			if st.info == nil {
+				st.info = map[string]Val{}
+			}
+			st.info[fmt.Sprintf("L%p", p.Alloc)] = v
+		}
 		if st.discover != nil {
 			st.discover.locals[p.Alloc] = true
 		}
@@ -616,10 +704,37 @@ func (u *Unit) store(st *State, pv Val, v Val, pos token.Pos) {
 			return
 		}
 		u.frameCheck(st, locs, pos)
+		if fi := u.fieldInvFor(p); fi != nil {
+			t, err := u.evalBool(st, &SpecEnv{vars: map[string]Val{"val": v}, pkg: u.pkgOf(u.fn)}, fi.Expr)
+			if err != nil {
+				u.fail(fmt.Sprintf("%s: fieldinv: %v", fi.Where, err))
+			} else {
+				u.oblige(st, "field-inv", fi.Field, t, pos, "value stored to "+fi.Type+"."+fi.Field+" satisfies the field invariant "+fi.Expr.String(), nil, fi.Where)
+			}
+		}
 		for i, l := range locs {
 			u.writeLoc(st, l, v.Terms[i])
 		}
+		if len(locs) > 0 && (v.Fn != nil || v.Dyn != nil || v.Global != nil) {
+			if st.info == nil {
+				st.info = map[string]Val{}
+			}
+			// valid while the first component keeps the version written here and no other leaf is overwritten
+			st.info["H"+p.Ref+"|"+p.Idx+"|"+locs[0].comp+"|"+st.heap[locs[0].comp]] = v
+		}
 	}
+}
+
+func sameTerms(a, b []Term) bool {
+	if len(a) != len(b) {
+		return false
+	}
+	for i := range a {
+		if a[i] != b[i] {
+			return false
+		}
+	}
+	return true
 }
 
 // ---------------------------------------------------------------------------
@@ -636,4 +751,26 @@ func sortedKeys[V any](m map[string]V) []string {
 	}
 	sort.Strings(ks)
 	return ks
+}
+
+// refTag: type-based disjointness of references. Every non-nil reference carries the
+// tag of its referent kind; references of different referent types are distinct.
+func (u *Unit) refTag(t types.Type) int {
+	var k string
+	switch x := t.Underlying().(type) {
+	case *types.Chan:
+		k = "chan:" + typeKey(x.Elem())
+	case *types.Pointer:
+		k = "ptr:" + typeKey(x.Elem())
+	case *types.Map:
+		k = "map:" + typeKey(x.Key()) + ":" + typeKey(x.Elem())
+	default:
+		k = "other:" + typeKey(t)
+	}
+	if n, ok := u.eng.refTags[k]; ok {
+		return n
+	}
+	n := len(u.eng.refTags) + 1
+	u.eng.refTags[k] = n
+	return n
 }
